@@ -105,6 +105,9 @@ def comp_block(c):
             s.append("    refPositionsFile%d %s" % (k + 1, f))
     if comp == "rmsd" and p.get("reffile"):
         s.append("    refPositionsFile " + p["reffile"])
+    if comp == "rmsd":
+        for perm in p.get("perms", []):
+            s.append("    atomPermutation " + " ".join(str(i) for i in perm))
     if comp == "orientation" and p.get("closest") is not None:
         s.append("    closestToQuaternion (%s, %s, %s, %s)" % tuple(g17(x) for x in p["closest"]))
     if comp == "hBond":
